@@ -49,6 +49,20 @@ CLAIMED = {
          'is outside the <=-data clause; shift/idempotence laws are stated for an explicit half_window.'),
    technique='Lean 4 proof of lattice laws of reflect-mode morphology and of the snip loop + bit-exact correspondence + exact hull certificate',
    design='4.C14'),
+ 'C03': dict(
+   text=('Lean 4 refinement proof (PbVerif.Props.C03): a state machine of everything a Baseline/Baseline2D object caches or lazily '
+         'creates (1-D/2-D polynomial helper: order, Vandermonde columns/key, pinv_stale, source of the cached pseudo-inverse; spline '
+         'basis key; validated-x flag; lazily created x; banded/pentapy solver) with the coherence invariant proved for init and every '
+         'step, and the theorem that for EVERY finite history of operations (orders up/down, weighted/unweighted, Vandermonde-only fits, '
+         'spline bases, unique-x methods, wrong-length calls, calls failing before or after a cache write, valid/invalid solver '
+         'assignments) and every probe call the probe\'s outcome equals the outcome on a fresh object with the same x. Correspondence: '
+         'random and directed histories on real objects (unique x, duplicate x, no x; 1-D and 2-D); after every operation the observable '
+         'state incl. content fingerprints of the cached Vandermonde/pseudo-inverse is diffed with the model, and the probe result is '
+         'compared with a fresh real object.'),
+   note=('Trusted: Lean kernel; axioms propext, Classical.choice, Quot.sound; harness. Numerical equality of reused/fresh results is '
+         'compared to 1e-8 relative on explored histories; which real method maps to which model operation is fixed in the harness.'),
+   technique='Lean 4 invariant + refinement proof of the cache state machine, tied by state-by-state correspondence on real objects',
+   design='4.C03'),
 }
 
 checks = []
